@@ -53,6 +53,8 @@ type FnCtx struct {
 	named map[string]string
 	sortT map[string]types.Type
 	declConst map[string]bool
+	sortDeclText map[string][]string // persistent across passes: sort name -> declaration lines
+	sortDeclOrder []string
 	frameMode bool
 	unfoldDepth int
 	modCache map[*ssa.Function]modResult
@@ -202,8 +204,11 @@ func (fc *FnCtx) sortOf(t types.Type) string {
 		name := "TP_" + u.Obj().Name()
 		if !fc.decl["sort:"+name] {
 			fc.decl["sort:"+name] = true
-			fc.emit(fmt.Sprintf("(declare-sort %s 0)", name))
-			fc.emit(fmt.Sprintf("(declare-const zero_%s %s)", name, name))
+			lines := []string{fmt.Sprintf("(declare-sort %s 0)", name), fmt.Sprintf("(declare-const zero_%s %s)", name, name)}
+			for _, l := range lines {
+				fc.emit(l)
+			}
+			fc.recordSortDecl(name, lines)
 		}
 		return name
 	}
@@ -265,13 +270,40 @@ func (fc *FnCtx) structSort(t types.Type, st *types.Struct) string {
 		for i, fs := range fsorts {
 			fl = append(fl, fmt.Sprintf("(%s_f%d %s)", name, i, fs))
 		}
+		var line string
 		if len(fl) == 0 {
-			fc.emit(fmt.Sprintf("(declare-datatypes ((%s 0)) (((mk_%s))))", name, name))
+			line = fmt.Sprintf("(declare-datatypes ((%s 0)) (((mk_%s))))", name, name)
 		} else {
-			fc.emit(fmt.Sprintf("(declare-datatypes ((%s 0)) (((mk_%s %s))))", name, name, strings.Join(fl, " ")))
+			line = fmt.Sprintf("(declare-datatypes ((%s 0)) (((mk_%s %s))))", name, name, strings.Join(fl, " "))
 		}
+		fc.emit(line)
+		fc.recordSortDecl(name, []string{line})
 	}
 	return name
+}
+
+func (fc *FnCtx) recordSortDecl(name string, lines []string) {
+	if fc.sortDeclText == nil {
+		fc.sortDeclText = map[string][]string{}
+	}
+	if _, ok := fc.sortDeclText[name]; !ok {
+		fc.sortDeclText[name] = lines
+		fc.sortDeclOrder = append(fc.sortDeclOrder, name)
+	}
+}
+
+// declareKnownSorts re-emits (at the start of a pass) the declarations of every sort that an
+// earlier pass discovered, so that heap components can mention them from the beginning.
+func (fc *FnCtx) declareKnownSorts() {
+	for _, name := range fc.sortDeclOrder {
+		if fc.decl["sort:"+name] {
+			continue
+		}
+		fc.decl["sort:"+name] = true
+		for _, l := range fc.sortDeclText[name] {
+			fc.emit(l)
+		}
+	}
 }
 
 func (fc *FnCtx) zero(t types.Type) Term {
